@@ -190,6 +190,57 @@ def replay(rec: Dict[str, Any]) -> List[Tuple[str, Dict[str, Any], str]]:
                     exp = [canon(v) for v in rec["res"][d]] if rec.get("_vals") else [canon(tag(v)) for v in expected_values(rec, d)]
                     if [canon(tag(m.obj)) for m in s_ms] != exp:
                         break  # sync already departs from the specification: C01/C02/C13's business
+        # an object whose member names need escaping in a normalized path, given to every filter program: the sync and the
+        # async side build the same paths (agreement only: the specification's documents do not contain these names)
+        if "?" in text:
+            special = {"it's": 1, "a\\b": 2, "\u0001": 3, 'say "hi"': {"a": 1, "b": [2]}, "\u00e9": {"a": 2}, "\U0001f600": [1, {"a": 1}]}
+            kw = {"filter_context": untag(ctx_t)} if ctx_t else {}
+            s_kind, s_ms = observe(lambda: list(path.finditer(special, **kw)))
+            a_kind, a_ms = observe(lambda: drive(collect(path.finditer_async(special, **kw))))
+            disc = ""
+            if a_kind != s_kind:
+                disc = f"sync-{s_kind.split(':')[0]}-async-{a_kind.split(':')[0]}"
+            elif s_kind == "ok":
+                disc = same_matches(s_ms, a_ms)
+            if disc:
+                return [(f"finditer_async:{disc}|names-that-need-escaping|{feats}", {"query": text, "doc": json.dumps(special), "sync": s_kind, "async": a_kind,
+                         "sync_paths": [m.path for m in (s_ms or [])][:10], "async_paths": [m.path for m in (a_ms or [])][:10], "tagged": c10.strip(rec)}, disc)]
+        # an environment that overrides the documented truthiness hook, and one that is reconfigured between two uses of the
+        # same text: whatever they mean, they mean it for the sync and the async entry points alike
+        import jsonpath as _jp
+        from jsonpath.match import NodeList
+
+        class Hooked(_jp.JSONPathEnvironment):
+            def is_truthy(self, obj: Any) -> bool:
+                if isinstance(obj, NodeList) and len(obj) == 1 and obj[0].obj in (0, False, None, "", 1):
+                    return False
+                return super().is_truthy(obj)
+
+        doc0 = untag(docs[0]["doc"])
+        kw = {"filter_context": untag(ctx_t)} if ctx_t else {}
+        for ename, mk_env in (("is_truthy-hook", Hooked), ("reconfigured", _jp.JSONPathEnvironment)):
+            try:
+                henv = mk_env()
+                if ename == "reconfigured":
+                    drive(henv.findall_async(text, doc0, **kw))
+                    list(henv.finditer(text, doc0, **kw))
+                    for f in ("length", "count", "match", "search", "value"):
+                        henv.function_extensions.pop(f, None)
+                    henv.max_int_index, henv.min_int_index = 0, 0
+            except BaseException:  # noqa: BLE001
+                continue
+            s_kind, s_vals = observe(lambda: [m.obj for m in henv.finditer(text, doc0, **kw)])
+            for name, fn in (("env.findall_async", lambda: drive(henv.findall_async(text, doc0, **kw))),
+                             ("env.finditer_async", lambda: [m.obj for m in drive(collect(henv.finditer_async(text, doc0, **kw)))])):
+                a_kind, a_vals = observe(fn)
+                disc = ""
+                if a_kind != s_kind:
+                    disc = f"sync-{s_kind.split(':')[0]}-async-{a_kind.split(':')[0]}" if s_kind[:3] != a_kind[:3] or "ok" in (s_kind, a_kind) else "different-error-kind"
+                elif s_kind == "ok" and (len(a_vals) != len(s_vals) or any(not same_obj(x, y) for x, y in zip(a_vals, s_vals))):
+                    disc = "different-values"
+                if disc:
+                    return [(f"{name}:{disc}|{ename}|{feats}", {"query": text, "doc": show(docs[0]["doc"]), "environment": ename, "sync": s_kind, "async": a_kind,
+                             "tagged": c10.strip(rec)}, disc)]
         # the document as JSON text, and as the JSON text of a string that itself holds JSON text (a string document)
         for form in ("json-text", "json-string-of-json-text"):
             raw = json.dumps(untag(docs[0]["doc"]))
